@@ -140,10 +140,10 @@ def gen_all(ctx):
     rng = ctx.rng
     q = ctx.quick
     scs = corpus_scenarios("C06")
-    for _ in range(ctx.scale(24, 240)):
-        scs.append(S.gen_scenario(rng, "periodogram_csd", nmax=24 if q else 96, max_ch=5 if q else 6))
-    for _ in range(ctx.scale(16, 160)):
-        scs.append(S.gen_scenario(rng, "multi_taper_csd", nmax=16 if q else 48,
+    for _ in range(ctx.scale(30, 200)):
+        scs.append(S.gen_scenario(rng, "periodogram_csd", nmax=32 if q else 96, max_ch=5 if q else 6))
+    for _ in range(ctx.scale(20, 120)):
+        scs.append(S.gen_scenario(rng, "multi_taper_csd", nmax=20 if q else 48,
                                   max_ch=rng.choice([2, 3, 3, 4]) if q else rng.choice([3, 4, 5, 6])))
     for _ in range(ctx.scale(16, 120)):
         scs.append(S.gen_welch(rng))
